@@ -65,7 +65,9 @@ def run(ctx):
                 "auth_strategy=private-key source}: {default, non-default port} x known_hosts {same key, different key same type, only "
                 "other key types, hashed entry, entry under the other port's name, none} x {Reject, AutoAdd, Warning, "
                 "custom accept, custom refuse}; (b2) system store x user store (load_system_host_keys / load_host_keys: none, same key, "
-                "other types, different key of the same type) x policy; (b4) unknown host x policies raising each exception class (SSHException, OSError family, "
+                "other types, different key of the same type) x policy; (b5) known RSA key vs presented near-collisions with a usable private half (modulus congruent "
+                "modulo sys.hash_info.modulus = equal Python hash; same modulus with another exponent; unrelated; identical) - "
+                "'same key' is decided by the harness as byte-identical public blob; (b4) unknown host x policies raising each exception class (SSHException, OSError family, "
                 "ValueError, KeyError, Exception, a BaseException subclass); (b3) known_hosts text with @revoked / @cert-authority marker "
                 "lines for the host (alone, after another host, wildcard) in either store; Transport.connect(hostkey = same / other of same type / other type / "
                 "None). non-trivial = an auth call was made before the kex completed, the signature was forged, or the "
@@ -215,6 +217,46 @@ def run(ctx):
         if G.PASSWORD.encode() in obs["raw"]:
             ctx.fail("secret-in-plaintext", case, "password in the client's raw output")
 
+    # ---------------- (b5) adversarial near-collisions of the known key: "the same key" means byte-identical public blob
+    ok_fact, eq_src = G.pkey_eq_fact()
+    ctx.extra["PKey.__eq__"] = eq_src
+    if not ok_fact:
+        ctx.broken.append({"kind": "generator", "what": "PKey.__eq__ no longer compares the _fields tuples",
+                           "detail": eq_src[:300]})
+    known_rsa = keys["rsa"]
+    near = dict(G.near_collisions(known_rsa))
+    near["same-key"] = known_rsa
+    near["unrelated-rsa"] = keys["rsa2"]
+    ncases = [(nn, pol, st) for nn in sorted(near) for pol in ("reject", "autoadd", "custom-ok") for st in ("user", "system")]
+    if not ctx.thorough:
+        ncases = [c for c in ncases if c[1] == "reject" and c[2] == "user"] + rng.sample(
+            [c for c in ncases if not (c[1] == "reject" and c[2] == "user")], 6)
+    replies = ctx.driver("C17", ["sconn %s %s %d" % (key_tok(known_rsa), key_tok(near[nn]), 0 if pol == "reject" else 1)
+                                 for nn, pol, st in ncases])
+    for i, (nn, pol, st) in enumerate(ncases):
+        presented = near[nn]
+        ep = rng.choice(entries_points)
+        kw = dict(system_entries=[(host, False, known_rsa)]) if st == "system" else {}
+        obs = G.run_ssh_client(host, 22, [(host, False, known_rsa)] if st == "user" else [], pol, presented, ep, **kw)
+        # decided by the harness itself: the presented key is the known one iff the public blobs are byte-identical
+        identical = presented.asbytes() == known_rsa.asbytes() and presented.get_name() == known_rsa.get_name()
+        ctx.case(("near-collision", nn, pol, st, ep), not identical)
+        ctx.dist("presented-key:" + nn)
+        case = {"known": "rsa (tests/_support/rsa.key)", "presented": nn, "policy": pol, "store": st, "entry_point": ep,
+                "python_hash_equal": hash(presented) == hash(known_rsa)}
+        if replies is not None and replies[i] != obs["outcome"]:
+            ctx.disagree("SSHClient.connect decision (near-collision)", case, replies[i], obs["outcome"])
+        if not identical and (obs["server_saw"] or obs["outcome"] == "authenticate"):
+            ctx.fail("credentials-sent-to-server-with-a-different-key", case,
+                     "presented %s is not byte-identical to the known key; outcome %s, server saw %r" %
+                     (nn, obs["outcome"], obs["server_saw"]))
+        if identical and not obs["server_saw_credential"]:
+            ctx.disagree("harness: accepted server did not receive the credential", case, "credential", obs["outcome"])
+        if obs["policy_called"]:
+            ctx.fail("known-host-handed-to-missing-host-key-policy", case, repr(obs["policy_called"]))
+        if G.PASSWORD.encode() in obs["raw"]:
+            ctx.fail("secret-in-plaintext", case, "password in the client's raw output")
+
     # ---------------- (b4) a policy accepts ONLY by returning normally: every exception class it may raise is a refusal
     rp = sorted(G.raising_policies())
     rcases = [(pn, vn, port) for pn in rp for vn in ("none", "other-port-name-only") for port in (22, 2222)]
@@ -315,7 +357,9 @@ META = {
     "note": ("Trusted: Lean kernel + 3 standard axioms; the gated harness. The model abstracts the key exchange to two "
              "events (reply with verified/forged signature, NEWKEYS); re-keying, the known_hosts file format and lookup "
              "(C41), key-type preference reordering and GSS-API key exchange (host key check skipped by design) are not "
-             "modelled. The missing-host-key policy is a Boolean in the model: it accepts only by returning normally; the "
+             "modelled. Key equality in the model is equality of (algorithm name, public blob); the harness decides it by "
+             "asbytes() and a source fact (AST) pins PKey.__eq__ to the _fields comparison. Fingerprint-prefix collisions are "
+             "not generated. The missing-host-key policy is a Boolean in the model: it accepts only by returning normally; the "
              "harness drives policies raising SSHException, the OSError family, ValueError, KeyError, Exception and a "
              "BaseException subclass. 'Encrypted' means the Packetizer's outbound cipher was set when the message was handed over; the "
              "oracle additionally greps the raw socket output for the secrets."),
